@@ -313,6 +313,62 @@ def derived_pair(rng):
     return derived, rebuilt, methods, {'kind': 'derived:' + kind, 'labels': [P.enc(l) for l in labels], 'history': hist}
 
 
+# ---- a Frame that is the RESULT of operations against the same table built directly ------------------------------------------------
+FRAME_STEPS = {
+    'iloc_cols_step': lambda f: f.iloc[:, ::2], 'iloc_cols_rev': lambda f: f.iloc[:, ::-1], 'iloc_rows_rev': lambda f: f.iloc[::-1], 'iloc_block': lambda f: f.iloc[1:, 1:] if min(f.shape) > 1 else f,
+    'cols_list': lambda f: f[list(f.columns)[::-1][:max(1, f.shape[1] - 1)]], 'drop_col': lambda f: f.drop.iloc[:, 0] if f.shape[1] > 1 else f, 'transpose': lambda f: f.T,
+    'sort_columns_desc': lambda f: f.sort_columns(ascending=False), 'sort_index_desc': lambda f: f.sort_index(ascending=False), 'roll': lambda f: f.roll(1, 1), 'shift': lambda f: f.shift(1, 0, fill_value=0),
+    'assign_col': lambda f: f.assign[f.columns[0]](0), 'assign_iloc': lambda f: f.assign.iloc[0, 0](7), 'astype_float': lambda f: f.astype(float), 'fillna': lambda f: f.fillna(0), 'neg': lambda f: -f,
+    'add_self': lambda f: f + f, 'clip': lambda f: f.clip(lower=0, upper=3), 'round': lambda f: round(f, 1), 'reindex_cols': lambda f: f.reindex(columns=list(f.columns)[::-1]),
+    'insert_after': lambda f: f.insert_after(f.columns[-1], f.iloc[:, :1].relabel(columns=('ins',))), 'from_concat_rows': lambda f: sf.Frame.from_concat((f, f.relabel(index=lambda l: ('z', l)))),
+    'from_concat_cols': lambda f: sf.Frame.from_concat((f, f.relabel(columns=lambda l: ('z', l))), axis=1), 'head': lambda f: f.head(2), 'mask_fill': lambda f: f.fillna(1).cumsum(),
+    'rename': lambda f: f.rename('r'), 'relabel_cols': lambda f: f.relabel(columns=lambda c: ('k', c)), 'dropna_cols': lambda f: f.dropna(axis=1, condition=np.all), 'isna': lambda f: f.isna(),
+    'set_index': lambda f: f.set_index(f.columns[0], drop=True) if f.shape[1] > 1 and f.iloc[:, 0].isna().sum() == 0 and len(set(f.iloc[:, 0].values.tolist())) == len(f) else f,
+}
+
+
+def frame_derived_pair(rng):
+    '''EXPLORATORY, not wired into any check: a numeric Frame (some block layout) taken through one to three public operations, against a Frame built
+    directly from the labels and columns the result shows.  On the unchanged tree it differs only where the block LAYOUT is observable by design or by a
+    known finding (bloc order, the dtype a fill / clip leaves in a multi-column block), which the C03 sweep already classifies; kept for the next round.'''
+    from . import common as C
+    f0 = C.rand_frame(rng, 4, 5, kinds=rng.choice(['if', 'i', 'f', 'ifb']), min_rows=1, min_cols=1, na=rng.choice([0.0, 0.3]), index_kind=rng.choice(['str', 'int']), columns_kind='str', name=False)
+    lay = C.rand_layout(rng, f0)
+    d = P.build_frame(f0, lay)
+    hist = []
+    for _ in range(rng.randint(1, 3)):
+        name = rng.choice(sorted(FRAME_STEPS))
+        d = FRAME_STEPS[name](d)
+        hist.append(name)
+    if d.shape[0] < 1 or d.shape[1] < 1:
+        raise ValueError('empty')
+    arrays = [a.copy() for a in P.raw_columns(d)]
+    for a in arrays:
+        a.flags.writeable = False
+    rebuilt = sf.Frame.from_items(zip(range(len(arrays)), arrays), index=sf.Index(list(d.index), name=d.index.name) if d.index.depth == 1 else d.index.__class__.from_labels(list(d.index), name=d.index.name), name=d.name)
+    cols = sf.Index(list(d.columns), name=d.columns.name) if d.columns.depth == 1 else d.columns.__class__.from_labels(list(d.columns), name=d.columns.name)
+    rebuilt = rebuilt.relabel(columns=cols)
+    labels = list(d.columns)
+    last, first = labels[-1], labels[0]
+    methods = {
+        'values': lambda f: f.values, 'shape': lambda f: f.shape, 'dtypes': lambda f: f.dtypes, 'iloc_last_col': lambda f: f.iloc[:, -1], 'iloc_cols_rev': lambda f: f.iloc[:, ::-1], 'loc_last': lambda f: f.loc[:, last],
+        'row0': lambda f: f.iloc[0], 'transpose': lambda f: f.T, 'iter_array0': lambda f: list(f.iter_array(axis=0)), 'iter_array1': lambda f: list(f.iter_array(axis=1)), 'to_pairs0': lambda f: f.to_pairs(0),
+        'sort_columns': lambda f: f.sort_columns(), 'drop_last': lambda f: f.drop[last], 'assign_last': lambda f: f.assign[last](0), 'astype_float': lambda f: f.astype(float), 'fillna': lambda f: f.fillna(0),
+        'isna': lambda f: f.isna(), 'roll_cols': lambda f: f.roll(0, 1), 'shift_cols': lambda f: f.shift(0, 1, fill_value=0), 'neg': lambda f: -f, 'add1': lambda f: f + 1, 'eq_self': lambda f: (f == f).values,
+        'reindex_rev': lambda f: f.reindex(columns=labels[::-1]), 'from_concat_self': lambda f: sf.Frame.from_concat((f, f), axis=1, columns=range(2 * len(labels))), 'iter_element_items': lambda f: list(f.iter_element_items()),
+        'bloc': lambda f: f.bloc[f.notna()], 'assign_bloc': lambda f: f.assign.bloc[f.isna()](0), 'equals_rebuilt': lambda f: f.equals(rebuilt, compare_dtype=True), 'insert_before': lambda f: f.insert_before(first, f.iloc[:, :1].relabel(columns=('nw',))),
+        'to_frame_go_grow': lambda f: _grown(f), 'pickle': lambda f: pickle.loads(pickle.dumps(f)), 'clip': lambda f: f.clip(lower=0, upper=2), 'iloc_cell_last': lambda f: f.iloc[-1, -1], 'count': lambda f: f.count(),
+        'head': lambda f: f.head(1), 'contains': lambda f: [c in f.columns for c in labels], 'columns_loc_to_iloc': lambda f: f.columns.loc_to_iloc(last), 'index_loc_to_iloc': lambda f: f.index.loc_to_iloc(f.index.values[-1] if f.index.depth == 1 else tuple(f.index.values[-1])),
+    }
+    return d, rebuilt, methods, {'kind': 'derived_frame', 'labels': [P.enc(l) for l in labels], 'history': hist + [str(lay)]}
+
+
+def _grown(f):
+    g = f.to_frame_go()
+    g['__new__' if f.columns.depth == 1 else tuple(['__new__'] * f.columns.depth)] = np.arange(len(f.index))
+    return g
+
+
 # ---- grow-only Frames -----------------------------------------------------------------------------------------------------------
 def _frame_methods(cols, hier):
     last = cols[-1]
@@ -382,6 +438,7 @@ def frame_pair(rng):
     return stale, fresh, _frame_methods(cols, hier), {'kind': 'FrameGO:' + ('hier' if hier else 'flat'), 'labels': [P.enc(c) for c in cols], 'history': hist}
 
 
+FRAME_AUTO_LEFT_OUT = {'sum', 'prod', 'min', 'max', 'mean', 'median', 'std', 'var', 'all', 'any', 'cumsum', 'cumprod', 'loc_min', 'loc_max', 'iloc_min', 'iloc_max', 'cov', 'count'}
 AUTO_SKIP = {'append', 'extend', 'extend_items', 'mloc', 'memory', 'interface', 'to_clipboard', 'to_hdf5', 'to_parquet', 'to_arrow', 'to_xarray', 'to_pandas', 'to_xlsx', 'to_sqlite',
              'to_html_datatables', 'to_npz', 'to_npy', 'to_msgpack', 'to_pickle', 'to_csv', 'to_tsv', 'to_delimited', 'to_latex', 'to_html', 'to_markdown', 'to_rst', 'to_json', 'sample'}
 
@@ -535,12 +592,14 @@ def events(rng, n, kinds):
         try:
             stale, fresh, methods, info = mk(rng)
         except Exception as e:
-            if mk.__name__ == 'derived_pair':
+            if mk.__name__ in ('derived_pair', 'frame_derived_pair'):
                 continue          # (a derivation the labels do not admit)
             out.append({'kind': 'twin', 'what': 'history_raised', 'info': {'builder': mk.__name__}, 'stale': json.dumps({'err': P.err_category(e), 'msg': str(e)[:80]}), 'fresh': '"built"'})
             continue
         if rng.random() < (0.15 if mk.__name__ == 'derived_pair' else 0.35):
             methods = _auto_methods(fresh)
+            if mk.__name__ == 'frame_derived_pair':          # (the reductions are layout-dependent over object rows: classified under the named operations of C03 / C15)
+                methods = {k: v for k, v in methods.items() if k.split(':')[1] not in FRAME_AUTO_LEFT_OUT}
             if isinstance(fresh, sf.Bus):
                 methods = {k: v for k, v in methods.items() if k.split(':')[1] not in BUS_SKIP}
             if isinstance(fresh, sf.Quilt):
